@@ -69,7 +69,7 @@ _RE_DEPTH = re.compile(r"^The depth of the complete state graph search is (\d+)"
 _RE_INV = re.compile(r"^Error: Invariant (\S+) is violated")
 _RE_PROP = re.compile(r"^Error: Action property (\S+) is violated")
 _RE_TPROP = re.compile(r"^Error: Temporal properties were violated")
-_RE_COV = re.compile(r"^<(\w+) line \d+, col \d+ to line \d+, col \d+ of module (\w+)>: (\d+):(\d+)")
+_RE_COV = re.compile(r"^<(\w+) line \d+, col \d+ to line \d+, col \d+ of module (\w+)(?: \([\d ]+\))?>: (\d+):(\d+)")
 _RE_SIMSTATES = re.compile(r"^The number of states generated: (\d+)")
 
 
